@@ -41,6 +41,213 @@ func normExpr(info *types.Info, pkg *types.Package, e ast.Expr) string {
 	return out
 }
 
+// nilElemSite: the first field selection on the value variable of a range over []*T (T a struct
+// declared in this module) that is not preceded, in the loop body, by a nil guard that leaves the
+// iteration.  Returns nil when the loop has no such selection.
+func nilElemSite(p *packages.Package, rs *ast.RangeStmt) ast.Expr {
+	vid, ok := rs.Value.(*ast.Ident)
+	if !ok || vid.Name == "_" {
+		return nil
+	}
+	vobj := p.TypesInfo.Defs[vid]
+	if vobj == nil {
+		vobj = p.TypesInfo.Uses[vid]
+	}
+	t := p.TypesInfo.TypeOf(rs.X)
+	if t == nil || vobj == nil {
+		return nil
+	}
+	sl, ok := t.Underlying().(*types.Slice)
+	if !ok {
+		return nil
+	}
+	ptr, ok := sl.Elem().Underlying().(*types.Pointer)
+	if !ok {
+		return nil
+	}
+	named, ok := ptr.Elem().(*types.Named)
+	if !ok || named.Obj().Pkg() == nil || !strings.HasPrefix(named.Obj().Pkg().Path(), "github.com/go-task/task/v3") {
+		return nil
+	}
+	if _, ok := named.Underlying().(*types.Struct); !ok {
+		return nil
+	}
+	isV := func(e ast.Expr) bool {
+		id, ok := e.(*ast.Ident)
+		return ok && p.TypesInfo.Uses[id] == vobj
+	}
+	leaves := func(b *ast.BlockStmt) bool {
+		if len(b.List) == 0 {
+			return false
+		}
+		switch l := b.List[len(b.List)-1].(type) {
+		case *ast.ReturnStmt:
+			return true
+		case *ast.BranchStmt:
+			return l.Tok.String() == "continue" || l.Tok.String() == "break"
+		}
+		return false
+	}
+	for _, st := range rs.Body.List {
+		if is, ok := st.(*ast.IfStmt); ok && is.Init == nil {
+			if be, ok := is.Cond.(*ast.BinaryExpr); ok && be.Op.String() == "==" {
+				if id, ok := be.Y.(*ast.Ident); ok && id.Name == "nil" && isV(be.X) && leaves(is.Body) {
+					return nil // guarded from here on
+				}
+			}
+		}
+		var hit ast.Expr
+		notNil := func(e ast.Expr) bool { // does the && chain `e` contain `v != nil`?
+			found := false
+			var walk func(e ast.Expr)
+			walk = func(e ast.Expr) {
+				if pe, ok := e.(*ast.ParenExpr); ok {
+					walk(pe.X)
+					return
+				}
+				if be, ok := e.(*ast.BinaryExpr); ok {
+					if be.Op.String() == "&&" {
+						walk(be.X)
+						walk(be.Y)
+					} else if be.Op.String() == "!=" {
+						if id, ok := be.Y.(*ast.Ident); ok && id.Name == "nil" && isV(be.X) {
+							found = true
+						}
+					}
+				}
+			}
+			walk(e)
+			return found
+		}
+		var scan func(n ast.Node)
+		scan = func(n ast.Node) {
+			if n == nil || hit != nil {
+				return
+			}
+			ast.Inspect(n, func(m ast.Node) bool {
+				if hit != nil {
+					return false
+				}
+				switch x := m.(type) {
+				case *ast.IfStmt:
+					if x.Init != nil {
+						scan(x.Init)
+					}
+					scan(x.Cond)
+					if !notNil(x.Cond) { // a body behind `v != nil && …` is guarded
+						scan(x.Body)
+					}
+					if x.Else != nil {
+						scan(x.Else)
+					}
+					return false
+				case *ast.BinaryExpr:
+					if x.Op.String() == "&&" {
+						scan(x.X)
+						if !notNil(x.X) {
+							scan(x.Y)
+						}
+						return false
+					}
+				case *ast.SelectorExpr:
+					if isV(x.X) {
+						if sel := p.TypesInfo.Selections[x]; sel != nil && sel.Kind() == types.FieldVal {
+							hit = x
+							return false
+						}
+					}
+				}
+				return true
+			})
+		}
+		scan(st)
+		if hit != nil {
+			return hit
+		}
+	}
+	return nil
+}
+
+// compiledListsOf: in compiledTask, every assignment (composite-literal entry or `new.F = …`) to a field
+// whose type is a slice of pointers to structs of this module, and every loop `for _, v := range
+// origTask.F` whose first statement is `if v == nil { continue }`.
+func compiledListsOf(p *packages.Package, fd *ast.FuncDecl) []string {
+	var rows []string
+	ptrList := func(t types.Type) bool {
+		if t == nil {
+			return false
+		}
+		sl, ok := t.Underlying().(*types.Slice)
+		if !ok {
+			return false
+		}
+		_, ok = sl.Elem().Underlying().(*types.Pointer)
+		return ok && namedStruct(sl.Elem()) != ""
+	}
+	seen := map[string]bool{}
+	add := func(f, how string) {
+		k := "(" + q(f) + ", " + q(how) + ")"
+		if !seen[k] {
+			seen[k] = true
+			rows = append(rows, k)
+		}
+	}
+	// how a value is produced: `call:<callee>` (builtins by name), `pass` (a field read as it is), else the expression
+	classify := func(e ast.Expr) string {
+		switch v := e.(type) {
+		case *ast.CallExpr:
+			switch f := v.Fun.(type) {
+			case *ast.Ident:
+				return "call:" + f.Name
+			case *ast.SelectorExpr:
+				return "call:" + src(f)
+			}
+		case *ast.SelectorExpr:
+			if sel := p.TypesInfo.Selections[v]; sel != nil && sel.Kind() == types.FieldVal {
+				return "pass"
+			}
+		}
+		return "expr:" + normExpr(p.TypesInfo, p.Types, e)
+	}
+	ast.Inspect(fd.Body, func(n ast.Node) bool {
+		switch x := n.(type) {
+		case *ast.KeyValueExpr:
+			if id, ok := x.Key.(*ast.Ident); ok {
+				if v, ok := p.TypesInfo.Uses[id].(*types.Var); ok && v.IsField() && ptrList(v.Type()) {
+					add(id.Name, classify(x.Value))
+				}
+			}
+		case *ast.AssignStmt:
+			for i, l := range x.Lhs {
+				if se, ok := l.(*ast.SelectorExpr); ok && i < len(x.Rhs) {
+					if sel := p.TypesInfo.Selections[se]; sel != nil && sel.Kind() == types.FieldVal && ptrList(sel.Type()) {
+						add(se.Sel.Name, classify(x.Rhs[i]))
+					}
+				}
+			}
+		case *ast.RangeStmt:
+			se, ok := x.X.(*ast.SelectorExpr)
+			vid, ok2 := x.Value.(*ast.Ident)
+			if !ok || !ok2 || !ptrList(p.TypesInfo.TypeOf(x.X)) || len(x.Body.List) == 0 {
+				return true
+			}
+			if is, ok := x.Body.List[0].(*ast.IfStmt); ok && is.Init == nil {
+				if be, ok := is.Cond.(*ast.BinaryExpr); ok && be.Op.String() == "==" {
+					xi, okx := be.X.(*ast.Ident)
+					yi, oky := be.Y.(*ast.Ident)
+					if okx && oky && yi.Name == "nil" && p.TypesInfo.Uses[xi] == p.TypesInfo.Defs[vid] && len(is.Body.List) == 1 {
+						if br, ok := is.Body.List[0].(*ast.BranchStmt); ok && br.Tok.String() == "continue" {
+							add(se.Sel.Name, "filtered-nil")
+						}
+					}
+				}
+			}
+		}
+		return true
+	})
+	return rows
+}
+
 // genPanicSites: in the packages on the load / compile / resolve / list path, every
 // expression that can panic at run time by itself: index and slice expressions on slices,
 // arrays and strings (map indexing cannot panic), type assertions without comma-ok,
@@ -54,6 +261,7 @@ func genPanicSites(pkgs []*packages.Package) {
 		"internal/editors": true, "internal/output": true, "internal/execext": true, "internal/version": true,
 	}
 	var rows []string
+	var compiled []string
 	seen := map[string]bool{}
 	for _, p := range pkgs {
 		if !want[shortPkg(p.PkgPath)] {
@@ -96,13 +304,16 @@ func genPanicSites(pkgs []*packages.Package) {
 					}
 					return true
 				})
-				add := func(kind string, e ast.Expr) {
-					expr := normExpr(p.TypesInfo, p.Types, e)
+				addText := func(kind string, expr string) {
 					k := "(" + q(fn) + ", " + q(kind) + ", " + q(expr) + ")"
 					if !seen[k] {
 						seen[k] = true
 						rows = append(rows, k)
 					}
+				}
+				add := func(kind string, e ast.Expr) { addText(kind, normExpr(p.TypesInfo, p.Types, e)) }
+				if fn == "task:Executor.compiledTask" {
+					compiled = compiledListsOf(p, fd)
 				}
 				ast.Inspect(fd.Body, func(n ast.Node) bool {
 					switch x := n.(type) {
@@ -138,6 +349,13 @@ func genPanicSites(pkgs []*packages.Package) {
 								}
 							}
 						}
+					case *ast.RangeStmt:
+						// `for _, v := range xs` over a slice of POINTERS to a struct of this module (what YAML
+						// decoding fills: a null list entry decodes to a nil element): a field of `v` read in
+						// the body before any `if v == nil { continue / return / break }`
+						if site := nilElemSite(p, x); site != nil {
+							addText("nilelem", "range "+normExpr(p.TypesInfo, p.Types, x.X)+": "+normExpr(p.TypesInfo, p.Types, site))
+						}
 					case *ast.SliceExpr:
 						add("slice", x)
 					case *ast.TypeAssertExpr:
@@ -163,5 +381,7 @@ func genPanicSites(pkgs []*packages.Package) {
 	}
 	sort.Strings(rows)
 	body := "/-- (function, kind, expression) -/\ndef sites : List (String × String × String) := [\n  " + strings.Join(rows, ",\n  ") + "]\n"
+	sort.Strings(compiled)
+	body += "\n/-- how `Executor.compiledTask` fills the fields of the compiled task that are lists of pointers (what a null YAML\nlist entry turns into a nil element of): (field, how) with how = the normalised right-hand side of the assignment,\n`filtered-nil` = elements appended in a loop over the definition's list that skips nil elements first -/\ndef compiledLists : List (String × String) := [\n  " + strings.Join(compiled, ",\n  ") + "]\n"
 	writeLean("PanicSites", "Expressions that can panic by themselves (index, slice, unchecked type assertion, Must*, panic) on the load/compile/resolve/list path.", body)
 }
